@@ -169,6 +169,12 @@ def run(tier):
     if nsend == 0:
         rep.fail('R12.b', 'never-sends', 'no path of the tick sends a periodic Hello (send compiled out?)', function='automata_tick', file=fnf)
     rep.analysed.update({'enumeration_states': Eu.states_no, 'sending_paths': nsend, 'enumeration_rows': Eu.rows})
+    # the gate reads the table's count and 'all complete' flag: they must tell the truth after every table operation
+    # (add / remove / clear / expiry / recomputation) - the table obligations of C16, re-decided under this property
+    from .c16 import decide as table_decide
+    from .c07 import RuleView
+    rep.rule('R12.g', 'the session table the gate reads is truthful: count = number of valid entries, flag = for-all, after add / remove / clear / expiry', floor=60)
+    table_decide(RuleView(rep, {r: 'R12.g' for r in ('R16.add', 'R16.remove', 'R16.clear', 'R16.status', 'R16.query', 'R16.expiry')}), prog)
     return finish(rep, 'other',
                   'Decides, on the non-testing build of the core: single caller of the send slot; a send implies a non-empty, not-all-complete table; every send is dominated by the '
                   'failed suppression test against the last transmit time and post-dominated by storing now into it, and nothing else stores it - hence consecutive periodic Hellos are '
